@@ -121,9 +121,9 @@ def to_hashable(data: Any) -> Any:
     if isinstance(data, list):
         return tuple(map(to_hashable, data))
     elif isinstance(data, dict):
-        sorted_keys = sorted(data)
         # mark dict in order to distinguish it from a list, e.g. {"a": 0} and ["a", 0]
-        return (dict, *sorted_keys, *(to_hashable(data[k]) for k in sorted_keys))
+        # (no sort of the keys because they can have mixed types)
+        return dict, frozenset((k, to_hashable(v)) for k, v in data.items())
     else:
         return data
 
@@ -136,7 +136,10 @@ class UniqueItemsConstraint(Constraint):
         assert self.unique
 
     def validate(self, data: Any) -> bool:
-        return len(set(map(to_hashable, data))) == len(data)
+        try:
+            return len(set(map(to_hashable, data))) == len(data)
+        except TypeError:  # unhashable items (not JSON data), compare them directly
+            return all(x != y for i, x in enumerate(data) for y in data[:i])
 
 
 @dataclass
